@@ -326,13 +326,15 @@ Fixpoint export_loop (existing : list name) (to_export : list (name * nat)) (sp 
       if existsb (name_eqb id) existing then inr (CannotImportDefined id sp)
       else export_loop existing t sp (done ++ [id])
   end.
+(* the order in which the children of an import scope are visited (`call` = which import statement, which pass) *)
+Definition children_order (k : iter_kind) (pi : oracle) (call : nat) (children : list (name * nat)) : list (name * nat) :=
+  match k with
+  | IterHashed => pi _ [5%nat; call] children
+  | IterSortedByKey => sort child_leb (pi _ [5%nat; call] children)
+  end.
 Definition import_all (k : iter_kind) (pi : oracle) (call : nat) (children : list (name * nat)) (existing : list name)
            (sp : span) : list name + diag :=
-  let order := match k with
-               | IterHashed => pi _ [5%nat; call] children
-               | IterSortedByKey => sort child_leb (pi _ [5%nat; call] children)
-               end in
-  export_loop existing order sp [].
+  export_loop existing (children_order k pi call children) sp [].
 
 (* ------------------------------------------------------------------ ConfigValidator::extract *)
 (* req.iter().sorted().join(", ")  over the HashSet of still-missing required keys *)
@@ -363,7 +365,11 @@ Record codegen_result := mkCg {
   cg_listing : list (path * name)
 }.
 
-Definition build (sc : site_config) (stem : path -> name) (codegen : parse_state -> codegen_result)
+(* `codegen` stands for the whole multi-pass code generator.  It gets the one hash iteration it performs on the build
+   path -- the children of an import scope in `import *` -- as a callback, and is otherwise an arbitrary function. *)
+Definition children_iter := nat -> list (name * nat) -> list (name * nat).
+
+Definition build (sc : site_config) (stem : path -> name) (codegen : children_iter -> parse_state -> codegen_result)
            (pi : oracle) (p : project) (main : path) : build_output :=
   match parse (sc_to_import sc) pi p main with
   | ParseOutOfFuel => BuildOutOfFuel
@@ -371,7 +377,7 @@ Definition build (sc : site_config) (stem : path -> name) (codegen : parse_state
       match ps_errors st with
       | _ :: _ => BuildFailed (emit_diagnostics (fun d => d) (ps_errors st))
       | [] =>
-          let cg := codegen st in
+          let cg := codegen (children_order (sc_import_all sc) pi) st in
           match cg_errors cg, cg_undefined cg with
           | _ :: _, _ => BuildFailed (emit_diagnostics (fun d => d) (cg_errors cg))
           | [], _ :: _ => BuildFailed (emit_diagnostics (fun d => d) (report_undefined (sc_undef_key sc) pi (cg_undefined cg)))
